@@ -3,14 +3,14 @@ PROP = {
  'level': 'exploration',
  'engine': 'P',
  'technique': 'a family of option-parser compositions x all argument vectors up to a length over each shape\'s token alphabet, against a reference interpreter of the documented left-to-right consumption semantics; constructor matrix for well-/ill-formed definitions',
- 'level_text': 'For each of about 45 parser compositions (argument, flag/switch, option, unit, unit_switch, optional, many, product/apply, sum, '
+ 'level_text': 'For each of about 60 parser compositions (argument, flag/switch, option, unit, unit_switch, optional, many, product/apply, sum, '
                'commands, base, parse_help; value types int, unsigned, string, enum) every argument vector up to length 4 (thorough 6) over '
                'the shape\'s own names, foreign flags, "-", "--", numbers and words is parsed by the real library and by a reference '
                'interpreter working on plain token lists; acceptance and the rendered record must agree. The reference keeps a consumption '
                'log and its accounting invariant (consumed multiset = argument vector) is asserted on every accepted vector, so agreement '
                'transfers the invariant to the implementation.',
  'level_note': 'token -> value conversion in the reference uses fcppt::extract_from_string itself (checked under C15/C01); shapes beyond the family are not covered; many() around nullable parsers is excluded (does not terminate by design)',
- 'binaries': [{'name': 'C03', 'sources': ['harness/C03.cpp', 'harness/C03_b.cpp', 'harness/C03_ctor.cpp'], 'libs': ['core', 'options'], 'flavour': 'asan'}],
+ 'binaries': [{'name': 'C03', 'sources': ['harness/C03.cpp', 'harness/C03_b.cpp', 'harness/C03_c.cpp', 'harness/C03_ctor.cpp'], 'libs': ['core', 'options'], 'flavour': 'asan'}],
  'deadline': {'quick': 300, 'thorough': 1500},
  'rule': 'one case per (shape, argument vector); vectors: all sequences up to the length bound over the shape\'s token alphabet (its long/short names, --zz, -, --, -1, 7, x, sub-command names); a case is non-trivial when the reference accepts the vector; plus one case per constructor configuration',
  'assumptions': ['optional/many continue from the state before the failed attempt (findings F8, fixed)',
